@@ -137,6 +137,20 @@ func runC09Stress(r *Run) {
 			h.close()
 		}
 	}
+	if r.Thorough() {
+		// a client that stops reading for a while and then goes on (the gateway's writes back up): what it
+		// reads afterwards is still a sequence of whole packets
+		for _, kind := range []string{"legacy", "ws"} {
+			h := newHostListener()
+			gws := startGateway(&protocol.Gateway{IdleTimeout: -1})
+			id := atomic.AddInt64(&seq, 1)
+			res := stressTunnel(kind, "stalled", gws, h, int(id))
+			say(fmt.Sprintf("TUNNEL %d round=stall %s stalled -> %s", id, kind, res))
+			say("DIST " + kind + ":stalled")
+			gws.close()
+			h.close()
+		}
+	}
 	r.Count("stress-a")
 	r.Count("stress-b")
 	r.Sample("stress child")
@@ -223,6 +237,12 @@ func stressTunnel(kind, scenario string, g *gwServer, host *hostListener, id int
 		}
 	}
 	time.Sleep(time.Duration(2+id%5) * time.Millisecond)
+	if scenario == "stalled" {
+		atomic.StoreInt32(&pauseReaders, 1)
+		time.Sleep(6500 * time.Millisecond)
+		atomic.StoreInt32(&pauseReaders, 0)
+		time.Sleep(1500 * time.Millisecond)
+	}
 	switch scenario {
 	case "close-while-sending":
 		cl.send(mkPacket(tClose, nil))
